@@ -40,7 +40,7 @@ func init() {
 			"whose matchers all say no without reading), PRF streams with random segmentation, an Accept consumer with scripted pacing " +
 			"(immediate / slower than arrival / stops), and a scripted close instant. every sixth run is followed by a two-listener run (one wrapper instance wraps two listeners: each connection must come out of its own listener's Accept, closing one leaves the other serving). oracle: each B/C connection is returned by Accept exactly once and reads the client's stream from the first " +
 			"unconsumed byte (TLS: plaintext + ConnectionState) with no read deadline left armed by matching; A/D are never returned and are closed; a connection pending at Close is either returned once or closed, never both/neither; " +
-			"after Close Accept returns net.ErrClosed and no goroutine remains in layer4.(*listener). non-trivial = >=1 fall-through connection accepted; distinct = hash(order signature of arrive/accept/close events). classes Q (v1 PROXY UNKNOWN header) and V (v2 header) fall through like P; in half of the runs the tls route is the first route, so the matchers of the other routes look at the plaintext before the connection falls through. class W: a non-terminal tee handler (which passes a wrapped connection on) in the matched route, then fall-through.",
+			"after Close Accept returns net.ErrClosed and no goroutine remains in layer4.(*listener). non-trivial = >=1 fall-through connection accepted; distinct = hash(order signature of arrive/accept/close events). classes Q (v1 PROXY UNKNOWN header) and V (v2 header) fall through like P; in half of the runs the tls route is the first route, so the matchers of the other routes look at the plaintext before the connection falls through. class W: a non-terminal tee handler (which passes a wrapped connection on) in the matched route, then fall-through. class K: three-byte first message behind undecided routes, client waits. in a quarter of the runs one class A connection is a long-lived session (its client keeps its side open until the run has been judged): closing the listener must deal with the pending connections all the same.",
 		Assumptions: []string{
 			"scripted transport; the consumer reads each accepted connection to EOF on its own goroutine",
 			"matching timeouts are 150-350 ms: a fall-through connection that layer4 dropped at its deadline while the scheduler canary shows stalls above an eighth of the timeout is counted as inconclusive (starved client), not as lost",
@@ -126,6 +126,9 @@ type connPlan struct {
 	Wire   []byte
 	Expect []byte // what the accepted connection must read (nil for non-delivered classes)
 	Segs   []int
+	// hold: a class A connection whose client keeps its side open until the run has been judged (a long-lived session in a
+	// terminal handler while the listener is closed)
+	hold   bool
 	client *vnet.End
 	server *vnet.End
 	rec    *hmods.ConnRec
@@ -274,6 +277,17 @@ func oneRun(c *fw.Ctx, cert *tlsutil.Cert, index, nConns int) {
 	for _, p := range plans {
 		byID[p.ID] = p
 	}
+	holdRun := !noRead && fw.Rand(c.Seed, "c13hold", index).Intn(4) == 0
+	holdRelease := make(chan struct{})
+	if holdRun {
+		for _, p := range plans[:min(len(plans), 6)] {
+			if p.Class == 'A' {
+				p.hold = true
+				break
+			}
+		}
+		defer close(holdRelease)
+	}
 
 	// consumer
 	var mu sync.Mutex
@@ -392,6 +406,9 @@ func oneRun(c *fw.Ctx, cert *tlsutil.Cert, index, nConns int) {
 			}
 			_ = drive.WriteSegments(p.client, p.Wire, p.Segs, 3, 30*time.Microsecond)
 			p.sentAt.Store(int64(vnet.Now()))
+			if p.hold {
+				return // (its side stays open; the run closes it at the very end)
+			}
 			_ = p.client.CloseWrite()
 		}(p)
 		if r.Intn(4) == 0 {
@@ -438,7 +455,9 @@ func oneRun(c *fw.Ctx, cert *tlsutil.Cert, index, nConns int) {
 	case <-doneClients:
 	case <-time.After(3 * time.Second):
 		for _, p := range plans[:injected] {
-			_ = p.client.Close()
+			if !p.hold {
+				_ = p.client.Close()
+			}
 		}
 		<-doneClients
 	}
@@ -450,7 +469,9 @@ func oneRun(c *fw.Ctx, cert *tlsutil.Cert, index, nConns int) {
 		c.Inconclusive("accepted-connection readers did not finish")
 	}
 	// census
-	if censusFailed {
+	if holdRun {
+		// (the held connection's terminal handler is still running, as it should)
+	} else if censusFailed {
 		// goroutines leaked by an earlier run of this process are still there; do not wait for them again
 	} else if n, first := oracle.WaitGoroutinesGone("layer4.(*listener)", time.Duration(timeoutMs)*time.Millisecond+5*time.Second); n > 0 {
 		censusFailed = true
@@ -466,7 +487,7 @@ func oneRun(c *fw.Ctx, cert *tlsutil.Cert, index, nConns int) {
 	}
 	delivered := 0
 	report := func(kind, what string, p *connPlan) {
-		w := map[string]any{"run": index, "pace": pace, "close": closeMode, "tls_first": tlsFirst, "conn": p.ID, "class": string(p.Class), "stream_len": len(p.Stream), "segs": len(p.Segs)}
+		w := map[string]any{"run": index, "pace": pace, "close": closeMode, "tls_first": tlsFirst, "long_lived_terminal_session": holdRun, "conn": p.ID, "class": string(p.Class), "stream_len": len(p.Stream), "segs": len(p.Segs)}
 		if p.rec != nil {
 			ev := p.rec.Events()
 			if len(ev) > 30 {
@@ -547,7 +568,7 @@ func oneRun(c *fw.Ctx, cert *tlsutil.Cert, index, nConns int) {
 				}
 			}
 		}
-		if !fall && p.server.CloseCalls.Load() == 0 {
+		if !fall && p.server.CloseCalls.Load() == 0 && !p.hold {
 			if !waitClosed(p) {
 				report(fmt.Sprintf("not-closed class %c", p.Class), fmt.Sprintf("connection of class %c was not closed by layer4", p.Class), p)
 			}
@@ -595,6 +616,9 @@ func oneRun(c *fw.Ctx, cert *tlsutil.Cert, index, nConns int) {
 		}
 	}
 	for _, p := range plans[:injected] {
+		if p.hold && p.client != nil {
+			_ = p.client.Close() // the long-lived session ends now that the run has been judged
+		}
 		hmods.Untrack(p.ID)
 	}
 	// order signature: accept order relative to injection order (inversions), pending at close
@@ -651,7 +675,7 @@ func settled(plans []*connPlan, mu *sync.Mutex, acc *[]*accepted, needAccept boo
 			if needAccept && !got[p.ID] && p.server.CloseCalls.Load() == 0 {
 				return false // (a connection that layer4 closed will not be delivered any more: nothing to wait for)
 			}
-		} else if p.server.CloseCalls.Load() == 0 {
+		} else if p.server.CloseCalls.Load() == 0 && !p.hold {
 			return false
 		}
 	}
